@@ -291,6 +291,44 @@ pub async fn verif_check_candidate(sessions: &[(bool, u64, String)], auth: &[u64
     r.to_string()
 }
 
+/// `NodeServerState::check_session(NameMessage { name, connection_id: nonce })` on a state built like the one of `verif_check_candidate`
+pub async fn verif_check_session(sessions: &[(bool, u64, String)], auth: &[u64], name: &str, nonce: u64, this: &str) -> String {
+    let (listener, _lh) = Actor::spawn(None, VerifListener, ()).await.unwrap();
+    let mut node_sessions = HashMap::new();
+    let mut connection_ids = HashMap::new();
+    let mut actors = Vec::new();
+    for (i, (srv, n_, peer)) in sessions.iter().enumerate() {
+        let n = i as u64 + 1;
+        let (s, _sh) = Actor::spawn(None, VerifSess, ()).await.unwrap();
+        let mut info = NodeServerSessionInformation::new(s.clone(), *srv, 100 + n, format!("addr{n}"));
+        info.peer_name = Some(auth_protocol::NameMessage { name: peer.clone(), flags: None, connection_string: "peer:1".to_string(), connection_id: 0 });
+        node_sessions.insert(s.get_id(), info);
+        connection_ids.insert(s.get_id(), NonZeroU64::new(*n_));
+        actors.push((n, s));
+    }
+    let id_of = |n: u64| actors.iter().find(|(k, _)| *k == n).map(|(_, a)| a.get_id()).unwrap();
+    let state = NodeServerState {
+        listener,
+        node_sessions,
+        node_id_counter: 200,
+        this_node_name: auth_protocol::NameMessage { name: this.to_string(), flags: None, connection_string: "this:1".to_string(), connection_id: 0 },
+        subscriptions: HashMap::new(),
+        connection_ids,
+        authenticated_sessions: auth.iter().map(|n| id_of(*n)).collect(),
+    };
+    let asked = auth_protocol::NameMessage { name: name.to_string(), flags: None, connection_string: "peer:1".to_string(), connection_id: nonce };
+    let r = match state.check_session(&asked) {
+        SessionCheckReply::NoOtherConnection => "NoOtherConnection",
+        SessionCheckReply::ThisConnectionContinues => "ThisConnectionContinues",
+        SessionCheckReply::OtherConnectionContinues => "OtherConnectionContinues",
+        SessionCheckReply::DuplicateConnection => "DuplicateConnection",
+    };
+    for (_, a) in actors {
+        a.stop(None);
+    }
+    r.to_string()
+}
+
 struct VerifSub(std::sync::Arc<std::sync::Mutex<Vec<String>>>);
 impl NodeEventSubscription for VerifSub {
     fn node_session_opened(&self, ses: NodeServerSessionInformation) {
